@@ -69,6 +69,11 @@ def outage_cases():
     return cases
 
 
+def xw_buffered_cases():
+    """buffered Unix sinks over a non-blocking socket whose listener does not read (WouldBlock), then reads again"""
+    return ["XW 16 80 10", "XW 64 160 20", "XW 512 400 90"]
+
+
 def xl_cases():
     return ["XL %s %s" % (a, b) for a in ("u 5 20", "16 9 7", "d 4 300", "64 12 20") for b in ("long", "nul")]
 
@@ -152,7 +157,7 @@ def gen_cases(rng, n):
         cases.append("XW " + spec)
     cases += ur_cases()
     cases += xl_cases()
-    cases += ["UA6 u", "UA6 16", "UA6 512", "UA4 u", "UA4 16", "UA4 512", "UE", "UO u", "UO 32", "UO 512"]
+    cases += ["UA6 u", "UA6 16", "UA6 512", "UA4 u", "UA4 16", "UA4 512", "UE", "UO6 65508", "UO6 65527", "UO u", "UO 32", "UO 512"]
     cases += big_udp_cases()
     cases += stats_sample_cases(rng, max(10, n // 10))
     for _ in range(n):
@@ -219,7 +224,7 @@ def xw_as_model_case(case, obs):
     if t[0] in ("XS", "BXS", "XN", "BXN"):
         ops = ",".join(o for o in t[3].split(",") if o != "m")
         return ("X b q0 " if t[0] in ("XS", "XN") else "BX %s q0 " % t[1]) + ops
-    if t[0] in ("UR", "XL", "UA6", "UA4", "UE", "UO") or (t[0] == "BU" and t[1].isdigit() and int(t[1]) > 65000):
+    if t[0] in ("UR", "XL", "UA6", "UA4", "UE", "UO6", "UO") or (t[0] == "BU" and t[1].isdigit() and int(t[1]) > 65000):
         return "UA 0 -"          # judged on the implementation's observation only
     if t[0] != "XW":
         return case
@@ -410,6 +415,25 @@ def judge(case, obs):
         return judge_xl(t, obs)
     if t[0] in ("UA6", "UA4"):
         return judge_ua6(t, obs)
+    if t[0] == "UO6":
+        if obs == "noipv6":
+            return []
+        if obs.startswith("HARNESS-PANIC"):
+            return [("C13", obs[:160]), ("C20", obs[:160])]
+        parts = dict(x.split(":", 1) for x in obs.split("|"))
+        ln = int(parts["L"])
+        if parts["R"] == "e" and parts["D"] == "0" and parts.get("C") != "k":
+            # the OS refuses a datagram of this size here (the control send from a plain std socket failed too): then it
+            # is the socket's error and one dropped packet
+            want = "0.0.%d.1" % ln
+            return [] if parts["S"] == want else [("C14", "statistics %s after one refused send of %d bytes, expected %s" % (parts["S"], ln, want))]
+        bad = []
+        if parts["R"] != "k%d" % ln or parts["W"] != "1":
+            bad.append(("C13", "a %d-byte metric to an IPv6 address (datagram limit 65527): emit answered %s, %s datagram(s) arrived, whole: %s"
+                        % (ln, parts["R"], parts["D"], parts["W"])))
+        if parts["S"] != "%d.1.0.0" % ln:
+            bad.append(("C14", "statistics %s after one successful send of %d bytes" % (parts["S"], ln)))
+        return bad
     if t[0] == "UE":
         if obs != "ctor:inv,inv,inv":
             return [("C13", "an address argument that yields no address: the three UDP constructors answered %s, expected an "
@@ -477,6 +501,23 @@ def judge(case, obs):
                 bad.append(("C14", "statistics %s but %d datagrams / %d bytes reached the listener" % (st, len(dg), sum(map(len, dg)))))
             if st[1] + st[3] != att:
                 bad.append(("C14", "packets_sent + packets_dropped = %d but %d sends were attempted" % (st[1] + st[3], att)))
+            # after the listener reads again and a flush has answered Ok (then the drop): every metric whose emit returned
+            # Ok is on the wire exactly once, none whose emit returned an error (the sends refused with WouldBlock lost
+            # nothing that had been acknowledged)
+            if "G" in parts and parts.get("Y", "").endswith("k"):
+                after = [bytes.fromhex(x) for x in parts["G"].split(";")] if parts["G"] else []
+                lines = [x for d in dg + after for x in d.split(b"\n") if x]
+                okm = [m for m, r in zip(ms, res) if r[0] == "k"]
+                erm = [m for m, r in zip(ms, res) if r[0] == "e"]
+                lost = [m for m in okm if lines.count(m) != 1]
+                ghost = [m for m in erm if m in lines]
+                for pid in ("C13", "C06", "C07", "C12"):
+                    if lost:
+                        bad.append((pid, "a non-blocking Unix socket whose listener fell behind (WouldBlock), then read again: %d of the "
+                                    "%d metrics acknowledged with Ok are not on the wire exactly once after a flush answered Ok and "
+                                    "the drop (first: %r)" % (len(lost), len(okm), lost[0][:30])))
+                    if ghost and pid != "C06":
+                        bad.append((pid, "%d metrics whose emit returned an error were written later (first: %r)" % (len(ghost), ghost[0][:30])))
         return bad
     if t[0] == "UR":
         return judge_ur(t, obs)
@@ -678,7 +719,7 @@ def run_sock_check(prop, tier, seed):
         for i, c in enumerate(cases):
             if c.startswith("XW"):
                 impl[i], model[i] = xw_views(c, impl[i], model[i])
-            elif c.split()[0] in ("UR", "XL", "UA6", "UA4", "UE", "UO") or (c.startswith("BU ") and c.split()[1].isdigit() and int(c.split()[1]) > 65000):
+            elif c.split()[0] in ("UR", "XL", "UA6", "UA4", "UE", "UO6", "UO") or (c.startswith("BU ") and c.split()[1].isdigit() and int(c.split()[1]) > 65000):
                 model[i] = impl[i]                 # judged, not modelled
             elif c.split()[0] in ("XS", "BXS", "XN", "BXN"):
                 # which listener got what is judged, not modelled; the `-` of op m is not in the model's results
